@@ -25,7 +25,7 @@ SCENARIOS = [
     {"sims": [{"sid": "Sa", "type": "time-based"}, {"sid": "Sb", "type": "time-based"}],
      "conns": [{"src": "Sa", "dst": "Sb", "sa": "p", "da": "i"}, {"src": "Sb", "dst": "Sa", "sa": "p", "da": "i", "shift": 1, "init": True}], "until": 4},
 ]
-EXCS = ["StopIteration", "KeyError", "ValueError", "StopAsyncIteration"]
+EXCS = ["StopIteration", "KeyError", "ValueError", "StopAsyncIteration", "CancelledError", "TimeoutError"]
 REMOTE_KINDS = ["eof", "reset", "eof_idle", "remote_exception"]
 
 
